@@ -14,6 +14,7 @@ import (
 	"github.com/bluenviron/gomavlib/v3/pkg/dialects/common"
 	"github.com/bluenviron/gomavlib/v3/pkg/frame"
 	"github.com/bluenviron/gomavlib/v3/pkg/message"
+	"pgregory.net/rapid"
 
 	"verifharness/ref"
 	"verifharness/sim"
@@ -221,7 +222,7 @@ func closeNode(n *gomavlib.Node, limit time.Duration) (time.Duration, error) {
 }
 
 func mustInit(t testing.TB, n *gomavlib.Node) {
-	if err := n.Initialize(); err != nil {
+	if err := initNode(&n); err != nil {
 		t.Fatalf("BROKEN: node init: %v", err)
 	}
 }
@@ -271,3 +272,28 @@ const scenarioLimit = 4 * time.Minute
 // "the channel stayed open while the peer kept talking" are inconclusive across such a moment (an absolute
 // read deadline can expire while the node's reader is not running).
 var stalls = sim.StartStallMonitor(60 * time.Millisecond)
+
+// A node can be obtained in two ways: filling a Node and calling Initialize, or the older NewNode(NodeConf).
+// Each case draws which one its nodes use, so that everything the checks establish holds for both.
+var nodeViaConf bool
+
+func drawNodeInit(t *rapid.T) {
+	nodeViaConf = rapid.IntRange(0, 3).Draw(t, "node_via_NewNode") == 0
+}
+
+func initNode(pn **gomavlib.Node) error {
+	if !nodeViaConf {
+		return (*pn).Initialize()
+	}
+	n := *pn
+	nn, err := gomavlib.NewNode(gomavlib.NodeConf{ //nolint:staticcheck
+		Endpoints: n.Endpoints, Dialect: n.Dialect, InKey: n.InKey, OutVersion: n.OutVersion, OutSystemID: n.OutSystemID,
+		OutComponentID: n.OutComponentID, OutKey: n.OutKey, HeartbeatDisable: n.HeartbeatDisable, HeartbeatPeriod: n.HeartbeatPeriod,
+		HeartbeatSystemType: n.HeartbeatSystemType, HeartbeatAutopilotType: n.HeartbeatAutopilotType,
+		StreamRequestEnable: n.StreamRequestEnable, StreamRequestFrequency: n.StreamRequestFrequency,
+		ReadTimeout: n.ReadTimeout, WriteTimeout: n.WriteTimeout, IdleTimeout: n.IdleTimeout})
+	if nn != nil {
+		*pn = nn
+	}
+	return err
+}
